@@ -47,6 +47,9 @@ impl DynamicConstraintsEncoder {
     }
 
     pub fn new_argument<T: LabelType>(&mut self, af: &mut AAFramework<T>, label: T) {
+        if af.argument_set().get_argument(&label).is_ok() {
+            return;
+        }
         af.new_argument(label);
         let arg_id = af.max_argument_id().unwrap();
         let solver_var = self.new_solver_var(SolverVarType::Argument(arg_id));
